@@ -16,7 +16,7 @@ from harness.impl import c01
 
 
 def build(desc, path):
-    nodes, first = [], {}
+    nodes, first, shared = [], {}, {}
     for k, d in enumerate(desc['nodes']):
         if d['gid'] in first:
             node = first[d['gid']].fork()
@@ -30,6 +30,9 @@ def build(desc, path):
                 builder = flowsym.Stateless.builder('marked', szout=d['szout'], hp=0, mark=(lambda n=d['name'], h=d.get('hp', 0): (n, h)))
             else:
                 builder = flowsym.builder(d['name'], d['stateful'], d['szout'], d.get('hp', 0))
+                if desc.get('share'):
+                    # worker groups created from ONE builder object (an operator composed twice, fold replicas, ...)
+                    builder = shared.setdefault((d['name'], d['stateful'], d['szout'], d.get('hp', 0)), builder)
             node = flow.Worker(builder, d['szin'], d['szout'])
             first[d['gid']] = node
         nodes.append(node)
